@@ -344,6 +344,44 @@ example : DTail (lst [sy "f"]) (lst [sy "cond", lst [sy "t", num 1], lst [sy "el
     ((tail_position_cond_last (l₁ := none) (l := none) (rest := lst [lst [sy "else", num 2, lst [sy "f"]]])
       (c := lst [sy "else", num 2, lst [sy "f"]]) rfl).1 (sy "else") [num 2] (lst [sy "f"]) rfl rfl (.here _))
 
+/-- the transformer leaves the syntax environment as it was whenever it produces an expression or a
+definition (`define-syntax` is accepted only at top level and in library bodies) — so the keywords mean
+the same for every sub-form of an expression -/
+theorem transform_keeps_syntax_env (n : Nat) (d : Datum) (env env' : Xform.SynEnv) (s : Statement)
+    (h : Xform.toStatement n d env = (.ok s, env')) (hs : Xform.Keep.IsED s) : env' = env :=
+  ((Xform.Keep.keepAll n).stmt d).keep env s env' h hs
+
+/-- FROM DATA TO EXPRESSIONS. If `sub` is in tail position of the datum `d` (`DTail`: through `if`
+arms, lambda applications and expansions of the bundled forms) and the parser's transformer turns `d`
+— in a syntax environment where the nine keywords resolve to the bundled rules (`StdEnv`) — into the
+expression `e`, then it turns `sub` (in such an environment, which it leaves unchanged) into an
+expression `esub` that is in tail position of `e` (`InTail`): the tail sub-form of every derived form
+ends up where `eval_tail_expression` hands it to the trampoline. -/
+theorem dtail_intail {sub d : Datum} (h : Macro.DTail sub d) {n env e env'} (hstd : Xform.StdEnv env)
+    (hx : Xform.toStatement n d env = (.ok (.expr e), env')) :
+    ∃ m envs esub, Xform.StdEnv envs ∧ Xform.toStatement m sub envs = (.ok (.expr esub), envs) ∧ InTail esub e :=
+  Xform.dtail_intail h hstd hx
+
+/-- the interpreter's own syntax environment (an empty scope over the bundled forms) is such an
+environment -/
+theorem default_env_std : Xform.StdEnv [[], Interp.grammarScope] := Xform.stdEnv_default
+
+open Ruschm.Macro Ruschm.Macro.Ex in
+set_option maxRecDepth 100000 in
+/-- example, end to end: `(when t 1 (f))` is transformed by the real transformer in the interpreter's
+syntax environment, and the transformed `(f)` is `InTail` of the result -/
+example : ∃ e env' m envs esub,
+    Xform.toStatement 300 (lst [sy "when", sy "t", num 1, lst [sy "f"]]) [[], Interp.grammarScope] = (.ok (.expr e), env') ∧
+    Xform.toStatement m (lst [sy "f"]) envs = (.ok (.expr esub), envs) ∧ InTail esub e := by
+  have hx : ∃ e env', Xform.toStatement 300 (lst [sy "when", sy "t", num 1, lst [sy "f"]])
+      [[], Interp.grammarScope] = (.ok (.expr e), env') := ⟨_, _, rfl⟩
+  obtain ⟨e, env', hx⟩ := hx
+  have hd : DTail (lst [sy "f"]) (lst [sy "when", sy "t", num 1, lst [sy "f"]]) :=
+    (tail_position_when_unless (l₁ := none) (l := none) (rest := lst [sy "t", num 1, lst [sy "f"]]) (test := sy "t")
+      (pre := [num 1]) (last := lst [sy "f"]) rfl (.here _)).1
+  obtain ⟨m, envs, esub, _, hs, hin⟩ := dtail_intail hd default_env_std hx
+  exact ⟨e, env', m, envs, esub, hx, hs, hin⟩
+
 /-! ## 5. the general principle: a call in tail position is a pending call of the same loop
 
 `InTail sub e` — `sub` is `e`, or in an arm of a tail `if`, or the last body expression of a `lambda`
